@@ -199,4 +199,364 @@ theorem unlines_appendLast (ws : Str) (X0 : List Str) (xl : Str) :
   rw [PreExpand.appendLast_append, unlines_append]
   simp [unlines]
 
+/-! ### uniform scaling of the indentation at the character level -/
+
+/-- a stretch without line breaks that does not start inside an indentation run is copied -/
+theorem scaleText_noNL (k : Nat) : ∀ (a s : Str), (∀ ch ∈ a, ch ≠ '\n') →
+    scaleText k false (a ++ s) = a ++ scaleText k false s := by
+  intro a
+  induction a with
+  | nil => intro s _; rfl
+  | cons c r ih =>
+    intro s h
+    have hc : c ≠ '\n' := h c (by simp)
+    simp only [List.cons_append, scaleText, hc, if_false, Bool.false_and, Bool.false_eq_true]
+    rw [ih s (fun ch hch => h ch (by simp [hch]))]
+
+theorem seg_skip' (o : Oracle) (b : Bool) (n : Nat) (s : Str) (h : n ≤ s.length) :
+    seg o b n s = seg o b 0 (s.drop n) := by
+  have := seg_skip o b (s.take n) (s.drop n)
+  rw [List.take_append_drop, List.length_take, Nat.min_eq_left h] at this
+  exact this
+
+/-- what is assumed of the two tokenizers along `text`: at every suffix the tokenizer of the scaled text decides like the tokenizer of the
+    original text, and a body token neither contains a line break nor runs past the end of the text -/
+def ScaleOK (k : Nat) (o o' : Oracle) (text : Str) : Prop :=
+  ∀ p q, text = p ++ q →
+    o' (scaleText k false q) = o q ∧
+    ∀ ty n, o q = some (ty, n) → n ≤ q.length ∧ ∀ ch ∈ q.take n, ch ≠ '\n'
+
+theorem ScaleOK.suffix {k : Nat} {o o' : Oracle} {text : Str} (h : ScaleOK k o o' text) (a s : Str) (hs : text = a ++ s) :
+    ScaleOK k o o' s := by
+  intro p q hq
+  exact h (a ++ p) q (by rw [hs, hq, List.append_assoc])
+
+theorem map_scaleP_cons (k : Nat) (b : Bool) (x : Except Err (List Piece)) (p : Piece) (f : List Piece → List Piece)
+    (hf : ∀ R, scaleP k b (p :: R) = f R) :
+    (x.map (p :: ·)).map (scaleP k b) = x.map f := by
+  cases x with
+  | error e => rfl
+  | ok R => simp [Except.map, hf]
+
+theorem seg_scale_run_ws (k : Nat) (o o' : Oracle) (w : Ws) (r : Str)
+    (ih : seg o' true 0 (scaleText k true r) = (seg o true 0 r).map (scaleP k true)) :
+    seg o' true 0 (List.replicate k (wsChar w) ++ scaleText k true r) =
+      ((seg o true 0 r).map (.ws w :: ·)).map (scaleP k true) := by
+  have h1 : List.replicate k (wsChar w) = wsChars (List.replicate k w) := by simp [wsChars]
+  rw [h1, seg_run_ws, ih]
+  cases seg o true 0 r with
+  | error e => rfl
+  | ok R => simp [Except.map, scaleP, wsPieces]
+
+theorem commentText_split : ∀ q : Str, ∃ rest, q = commentText q ++ rest ∧ (∀ ch ∈ commentText q, ch ≠ '\n') ∧
+    (rest = [] ∨ ∃ t, rest = '\n' :: t) ∧ rest = q.drop (commentText q).length := by
+  intro q
+  induction q with
+  | nil => exact ⟨[], by simp [commentText], by simp [commentText], Or.inl rfl, by simp [commentText]⟩
+  | cons c r ih =>
+    by_cases hc : c = '\n'
+    · subst hc
+      exact ⟨'\n' :: r, by simp [commentText], by simp [commentText], Or.inr ⟨r, rfl⟩, by simp [commentText]⟩
+    · obtain ⟨rest, h1, h2, h3, h4⟩ := ih
+      have hct : commentText (c :: r) = c :: commentText r := by
+        simp [commentText, List.takeWhile_cons, hc]
+      refine ⟨rest, ?_, ?_, h3, ?_⟩
+      · rw [hct, List.cons_append, ← h1]
+      · intro ch hch
+        rw [hct] at hch
+        rcases List.mem_cons.1 hch with h | h
+        · rw [h]; exact hc
+        · exact h2 ch h
+      · rw [hct]; simpa using h4
+
+theorem commentText_of_noNL (a rest : Str) (ha : ∀ ch ∈ a, ch ≠ '\n') (hr : rest = [] ∨ ∃ t, rest = '\n' :: t) :
+    commentText (a ++ rest) = a := by
+  induction a with
+  | nil =>
+    rcases hr with h | ⟨t, h⟩ <;> simp [commentText, h]
+  | cons c r ih =>
+    have hc : c ≠ '\n' := ha c (by simp)
+    have := ih (fun ch hch => ha ch (by simp [hch]))
+    simp only [commentText] at this ⊢
+    simp [List.takeWhile_cons, hc, this]
+
+/-- `seg` at a position that does not continue an open run: the decision tree of a token start -/
+theorem seg_tokstart (o : Oracle) (b : Bool) (c : Char) (r : Str)
+    (h1 : (b && c == ' ') = false) (h2 : (b && c == '\t') = false) (h3 : (b && c == '\n') = false)
+    (h4 : (b && c == '\r' && r.head? == some '\n') = false) :
+    seg o b 0 (c :: r) =
+      match o (c :: r) with
+      | some (ty, n) =>
+        if n = 0 then .error .badChar
+        else (seg o false (n - 1) r).map (.tok ty (String.ofList ((c :: r).take n)) :: ·)
+      | none =>
+        if c == '\n' then (seg o true 0 r).map (.nl false :: ·)
+        else if c == '\r' && r.head? == some '\n' then (seg o true 1 r).map (.nl true :: ·)
+        else if c == ' ' then (seg o false 0 r).map (.ws .sp :: ·)
+        else if c == '\t' then (seg o false 0 r).map (.ws .tab :: ·)
+        else if c == '#' then
+          (seg o false ((commentText (c :: r)).length - 1) r).map (.comment (String.ofList (commentText (c :: r))) :: ·)
+        else .error .badChar := by
+  rw [seg]
+  simp only [h1, h2, h3, h4, Bool.false_eq_true, if_false]
+  rfl
+
+theorem head_scaleText_false (k : Nat) (r : Str) : ((scaleText k false r).head? == some '\n') = (r.head? == some '\n') := by
+  cases r with
+  | nil => rfl
+  | cons d r' =>
+    by_cases hd : d = '\n'
+    · subst hd; simp [scaleText]
+    · simp [scaleText, hd]
+
+theorem seg_scale (k : Nat) (o o' : Oracle) : ∀ (n : Nat) (text : Str), text.length ≤ n → ∀ b, ScaleOK k o o' text →
+    seg o' b 0 (scaleText k b text) = (seg o b 0 text).map (scaleP k b) := by
+  intro n
+  induction n with
+  | zero =>
+    intro text hl b _
+    have : text = [] := List.eq_nil_of_length_eq_zero (Nat.le_zero.1 hl)
+    subst this
+    simp [scaleText, seg, Except.map, scaleP]
+  | succ n ih =>
+    intro text hl b hok
+    cases text with
+    | nil => simp [scaleText, seg, Except.map, scaleP]
+    | cons c r =>
+      have hr : r.length ≤ n := by simpa using hl
+      have hokr : ScaleOK k o o' r := hok.suffix [c] r rfl
+      by_cases hnl : c = '\n'
+      · -- a line break
+        subst hnl
+        have ihr := ih r hr true hokr
+        have hsc : scaleText k b ('\n' :: r) = '\n' :: scaleText k true r := by simp [scaleText]
+        have hfin : (seg o' true 0 (scaleText k true r)).map (.nl false :: ·) =
+            ((seg o true 0 r).map (.nl false :: ·)).map (scaleP k b) := by
+          rw [ihr]
+          cases seg o true 0 r with
+          | error e => rfl
+          | ok R => cases b <;> simp [Except.map, scaleP]
+        rw [hsc]
+        cases b with
+        | true =>
+          have h1 := seg_run_eol o' false (scaleText k true r)
+          have h2 := seg_run_eol o false r
+          simp only [eol, Bool.false_eq_true, if_false, List.cons_append, List.nil_append] at h1 h2
+          rw [h1, h2]; exact hfin
+        | false =>
+          obtain ⟨ho, htok⟩ := hok [] ('\n' :: r) rfl
+          have hsc' : scaleText k false ('\n' :: r) = '\n' :: scaleText k true r := by simp [scaleText]
+          rw [hsc'] at ho
+          cases hq : o ('\n' :: r) with
+          | none =>
+            rw [hq] at ho
+            have h1 := seg_start_eol o' false (scaleText k true r) (by simpa [eol] using ho)
+            have h2 := seg_start_eol o false r (by simpa [eol] using hq)
+            simp only [eol, Bool.false_eq_true, if_false, List.cons_append, List.nil_append] at h1 h2
+            rw [h1, h2]; exact hfin
+          | some p =>
+            obtain ⟨ty, m⟩ := p
+            rw [hq] at ho
+            cases m with
+            | zero => simp [seg, ho, hq, Except.map]
+            | succ m =>
+              have := (htok ty (m + 1) hq).2 '\n' (by simp)
+              exact absurd rfl this
+      · -- not a line break
+        by_cases hrun : b = true ∧ (c = ' ' ∨ c = '\t')
+        · -- a blank of an indentation run
+          obtain ⟨hb, hc⟩ := hrun
+          subst hb
+          have ihr := ih r hr true hokr
+          rcases hc with hc | hc
+          · subst hc
+            have hsc : scaleText k true (' ' :: r) = List.replicate k (wsChar .sp) ++ scaleText k true r := by simp [scaleText, wsChar]
+            have h2 : seg o true 0 (' ' :: r) = (seg o true 0 r).map (.ws .sp :: ·) := by simp [seg]
+            rw [hsc, h2]; exact seg_scale_run_ws k o o' .sp r ihr
+          · subst hc
+            have hsc : scaleText k true ('\t' :: r) = List.replicate k (wsChar .tab) ++ scaleText k true r := by simp [scaleText, wsChar]
+            have h2 : seg o true 0 ('\t' :: r) = (seg o true 0 r).map (.ws .tab :: ·) := by simp [seg]
+            rw [hsc, h2]; exact seg_scale_run_ws k o o' .tab r ihr
+        · have hsc : scaleText k b (c :: r) = c :: scaleText k false r := by
+            cases b
+            · simp [scaleText, hnl]
+            · have h1 : c ≠ ' ' := fun h => hrun ⟨rfl, Or.inl h⟩
+              have h2 : c ≠ '\t' := fun h => hrun ⟨rfl, Or.inr h⟩
+              simp [scaleText, hnl, h1, h2]
+          have hsc' : scaleText k false (c :: r) = c :: scaleText k false r := by simp [scaleText, hnl]
+          by_cases hcr : b = true ∧ c = '\r' ∧ ∃ r', r = '\n' :: r'
+          · -- CRLF inside an open run
+            obtain ⟨hb, hc, r', hr'⟩ := hcr
+            subst hb; subst hc; subst hr'
+            have ihr := ih r' (by simp at hr; omega) true (hok.suffix ['\r', '\n'] r' rfl)
+            have hs2 : scaleText k true ('\r' :: '\n' :: r') = eol true ++ scaleText k true r' := by simp [scaleText, eol]
+            have h2 : seg o true 0 ('\r' :: '\n' :: r') = (seg o true 0 r').map (.nl true :: ·) := seg_run_eol o true r'
+            rw [hs2, seg_run_eol, h2, ihr]
+            cases seg o true 0 r' with
+            | error e => rfl
+            | ok R => simp [Except.map, scaleP]
+          · -- a token start
+            have g1 : (b && c == ' ') = false := by
+              cases b <;> simp
+              intro h; exact hrun ⟨rfl, Or.inl h⟩
+            have g2 : (b && c == '\t') = false := by
+              cases b <;> simp
+              intro h; exact hrun ⟨rfl, Or.inr h⟩
+            have g3 : (b && c == '\n') = false := by cases b <;> simp [hnl]
+            have g4 : (b && c == '\r' && r.head? == some '\n') = false := by
+              cases b <;> simp
+              intro hc hh
+              apply hcr
+              refine ⟨rfl, hc, ?_⟩
+              cases r with
+              | nil => simp at hh
+              | cons d r' => simp at hh; exact ⟨r', by rw [hh]⟩
+            have g4' : (b && c == '\r' && (scaleText k false r).head? == some '\n') = false := by
+              rw [head_scaleText_false]; exact g4
+            obtain ⟨ho, htok⟩ := hok [] (c :: r) rfl
+            rw [hsc'] at ho
+            rw [hsc, seg_tokstart o' b c _ g1 g2 g3 g4', seg_tokstart o b c r g1 g2 g3 g4, ho]
+            cases hq : o (c :: r) with
+            | some p =>
+              obtain ⟨ty, m⟩ := p
+              cases m with
+              | zero => simp [Except.map]
+              | succ m =>
+                obtain ⟨hlen, hno⟩ := htok ty (m + 1) hq
+                have hm : m ≤ r.length := by simpa using hlen
+                -- the token's characters are copied by the scaling
+                have hq2 : c :: r = (c :: r).take (m + 1) ++ r.drop m := by
+                  conv => lhs; rw [← List.take_append_drop (m + 1) (c :: r)]
+                  simp
+                have hS : c :: scaleText k false r = (c :: r).take (m + 1) ++ scaleText k false (r.drop m) := by
+                  rw [← hsc']
+                  conv => lhs; rw [hq2]
+                  exact scaleText_noNL k _ _ hno
+                have htake : (c :: scaleText k false r).take (m + 1) = (c :: r).take (m + 1) := by
+                  rw [hS, List.take_left' (by simp; omega)]
+                have hX : scaleText k false r = r.take m ++ scaleText k false (r.drop m) := by
+                  have := congrArg List.tail hS
+                  simpa using this
+                have hdrop : (scaleText k false r).drop m = scaleText k false (r.drop m) := by
+                  rw [hX, List.drop_left' (by simp; omega)]
+                have hmX : m ≤ (scaleText k false r).length := by
+                  rw [hX]; simp; omega
+                have ihd := ih (r.drop m) (by simp; omega) false (hok.suffix ((c :: r).take (m + 1)) (r.drop m) hq2)
+                simp only [Nat.succ_ne_zero, if_false, Nat.add_sub_cancel, htake]
+                rw [seg_skip' o' false m _ hmX, hdrop, ihd, seg_skip' o false m r hm]
+                cases seg o false 0 (r.drop m) with
+                | error e => rfl
+                | ok R => cases b <;> simp [Except.map, scaleP]
+            | none =>
+              simp only []
+              have e1 : (c == '\n') = false := by simpa using hnl
+              simp only [e1, Bool.false_eq_true, if_false]
+              by_cases hcrlf : c = '\r' ∧ ∃ r', r = '\n' :: r'
+              · -- CRLF at a token start opens a run
+                obtain ⟨hc, r', hr'⟩ := hcrlf
+                subst hc; subst hr'
+                have ihr := ih r' (by simp at hr; omega) true (hok.suffix ['\r', '\n'] r' rfl)
+                have hs2 : scaleText k false ('\n' :: r') = '\n' :: scaleText k true r' := by simp [scaleText]
+                simp only [hs2, List.head?_cons, beq_self_eq_true, Bool.and_self, if_true, seg, ihr]
+                cases seg o true 0 r' with
+                | error e => rfl
+                | ok R => cases b <;> simp [Except.map, scaleP]
+              · have e2 : (c == '\r' && r.head? == some '\n') = false := by
+                  apply Bool.eq_false_iff.2
+                  intro h
+                  simp only [Bool.and_eq_true, beq_iff_eq] at h
+                  apply hcrlf
+                  refine ⟨h.1, ?_⟩
+                  cases r with
+                  | nil => simp at h
+                  | cons d r' => simp at h; exact ⟨r', by rw [h.2]⟩
+                have e2' : (c == '\r' && (scaleText k false r).head? == some '\n') = false := by
+                  rw [head_scaleText_false]; exact e2
+                simp only [e2, e2', Bool.false_eq_true, if_false]
+                have ihr := ih r hr false hokr
+                by_cases hsp : c = ' '
+                · subst hsp
+                  have hb : b = false := by cases b <;> simp_all
+                  subst hb
+                  simp only [beq_self_eq_true, if_true, ihr]
+                  cases seg o false 0 r with
+                  | error e => rfl
+                  | ok R => simp [Except.map, scaleP]
+                · by_cases htb : c = '\t'
+                  · subst htb
+                    have hb : b = false := by cases b <;> simp_all
+                    subst hb
+                    simp only [beq_self_eq_true, if_true, ihr]
+                    have : ('\t' == ' ') = false := by decide
+                    simp only [this, Bool.false_eq_true, if_false]
+                    cases seg o false 0 r with
+                    | error e => rfl
+                    | ok R => simp [Except.map, scaleP]
+                  · have e3 : (c == ' ') = false := by simpa using hsp
+                    have e4 : (c == '\t') = false := by simpa using htb
+                    simp only [e3, e4, Bool.false_eq_true, if_false]
+                    by_cases hh : c = '#'
+                    · subst hh
+                      obtain ⟨rest, h1, h2, h3, _⟩ := commentText_split r
+                      have hct : commentText ('#' :: r) = '#' :: commentText r := by simp [commentText]
+                      have hrest' : scaleText k false rest = [] ∨ ∃ t, scaleText k false rest = '\n' :: t := by
+                        rcases h3 with h | ⟨t, h⟩
+                        · left; rw [h]; rfl
+                        · right; exact ⟨scaleText k true t, by rw [h]; simp [scaleText]⟩
+                      have hX : scaleText k false r = commentText r ++ scaleText k false rest := by
+                        conv => lhs; rw [h1]
+                        exact scaleText_noNL k _ _ h2
+                      have hctX : commentText ('#' :: scaleText k false r) = '#' :: commentText r := by
+                        have : commentText ('#' :: scaleText k false r) = '#' :: commentText (scaleText k false r) := by simp [commentText]
+                        rw [this, hX, commentText_of_noNL _ _ h2 hrest']
+                      have hlen : rest.length ≤ n := by
+                        have : r.length = (commentText r).length + rest.length := by
+                          conv => lhs; rw [h1]
+                          simp
+                        omega
+                      have ihd := ih rest hlen false (hok.suffix ('#' :: commentText r) rest (by rw [List.cons_append, ← h1]))
+                      have s1 : seg o' false (commentText r).length (scaleText k false r) = seg o' false 0 (scaleText k false rest) := by
+                        rw [hX]; exact seg_skip o' false _ _
+                      have s2 : seg o false (commentText r).length r = seg o false 0 rest := by
+                        have := seg_skip o false (commentText r) rest
+                        rwa [← h1] at this
+                      simp only [beq_self_eq_true, if_true, hct, hctX, List.length_cons, Nat.add_sub_cancel, s1, s2, ihd]
+                      cases seg o false 0 rest with
+                      | error e => rfl
+                      | ok R => cases b <;> simp [Except.map, scaleP]
+                    · have e5 : (c == '#') = false := by simpa using hh
+                      simp [e5, Except.map]
+
+/-- the toy tokenizer satisfies `ScaleOK` on every text (non-vacuity of `text_layout_scale`) -/
+theorem toyOracle_scaleOK (k : Nat) (text : Str) : ScaleOK k toyOracle toyOracle text := by
+  intro p q _
+  cases q with
+  | nil => exact ⟨rfl, by intro ty n h; simp [toyOracle] at h⟩
+  | cons c r =>
+    by_cases hnl : c = '\n'
+    · subst hnl
+      exact ⟨by simp [scaleText, toyOracle], by intro ty n h; simp [toyOracle] at h⟩
+    · have hs : scaleText k false (c :: r) = c :: scaleText k false r := by simp [scaleText, hnl]
+      by_cases ha : c = 'a'
+      · subst ha
+        refine ⟨by rw [hs]; rfl, ?_⟩
+        intro ty n h
+        simp only [toyOracle] at h
+        have hn : n = 1 := by simpa using (congrArg (fun x => x.map Prod.snd) h).symm
+        subst hn
+        exact ⟨by simp, by simp⟩
+      · refine ⟨?_, ?_⟩
+        · rw [hs]
+          unfold toyOracle
+          split
+          · rename_i heq; simp at heq; exact absurd heq.1 ha
+          · split
+            · rename_i heq; simp at heq; exact absurd heq.1 ha
+            · rfl
+        · intro ty n h
+          unfold toyOracle at h
+          split at h
+          · rename_i heq; simp at heq; exact absurd heq.1 ha
+          · simp at h
+
 end NemoVerif.TextLayout
